@@ -4,6 +4,7 @@ Theorems about Model/Socket.lean (all histories, all buffer sizes), tied to pkg/
 the gob-framed layer by the differential on real socketpairs.  PROPERTY THEOREMS ONLY.
 -/
 import GoSandbox.Model.Socket
+import GoSandbox.Model.SocketGen
 namespace GoSandbox.Props.C19
 open GoSandbox.Model.Socket
 
@@ -130,5 +131,17 @@ theorem C19_too_many_fds_rejected (q : List Packet) (p : Packet) (h : p.files.le
 /-! non-vacuity -/
 example : (run true [.send ⟨[1, 2], [5], some (1, 0, 0)⟩, .send ⟨[3], [], none⟩, .recv 4 4, .recv 4 4] ⟨[], []⟩).2.1 =
     [.msg [1, 2] [5] (some (1, 0, 0)), .msg [3] [] none] := by decide
+
+/-! ### the regenerated RecvMsg computes the hand model (evaluated by the kernel) -/
+
+open GoSandbox.Model.SocketGen in
+/-- **tie of RecvMsg/parseMsg**: for payloads of 1..3 bytes, 0..3 passed files, data buffers of 1..3
+bytes, control buffers with room for 0..3 descriptors, with and without SO_PASSCRED (the kernel then
+puts the credentials message BEFORE the rights message): the regenerated code hands over exactly
+the model's message, or rejects it having closed exactly the descriptors the kernel installed. -/
+theorem C19_tie_recv :
+    ([1, 2, 3].all fun dl => [0, 1, 2, 3].all fun nf => [1, 2, 3].all fun dcap => [0, 1, 2, 3].all fun fcap => [false, true].all fun pc =>
+      agrees ⟨List.replicate dl 7, (List.range nf).map (· + 10), none⟩ dcap fcap pc) = true := by
+  decide +kernel
 
 end GoSandbox.Props.C19
